@@ -537,7 +537,7 @@ func (v *Verifier) runCase(p *packages.Package, fc *FuncContract, decl *ast.Func
 		}
 		st := f.St
 		nret++
-		v.obligs = append(v.obligs, &Oblig{Name: fmt.Sprintf("%s#vacuity:path%d%s", v.fnName, nret, v.caseSuffix()), Class: "vacuity-path", Func: v.fnName, PC: append([]*Term(nil), st.pc...), Goal: TFalse, MustSat: true, Desc: "return path is feasible", Mode: v.mode, Props: fc.Props, Pos: v.pos(f.Pos)})
+		v.obligs = append(v.obligs, &Oblig{Name: fmt.Sprintf("%s#vacuity:path%d%s", v.fnName, nret, v.caseSuffix()), Class: "vacuity-path", Func: v.fnName, PC: append([]*Term(nil), st.pc...), Goal: TFalse, MustSat: true, Desc: "return path is feasible", Mode: v.mode, Props: fc.Props, Pos: v.pos(f.Pos), ErrRet: f.ErrRet})
 		// deferred calls
 		if len(st.defers) > 0 {
 			// results must be visible to deferred closures through named results only: not modelled
